@@ -170,3 +170,20 @@ def run(ctx):
                     ctx.bad(rule, key, "%s: wire-derived value %s with range %r is truncated by `as %s`" % (f.id, fmt(e)[:60], iv, prog.types[s.rv.ty]["s"]),
                             loc="%s:%s" % (f.file, s.line))
     ctx.count("wire_casts", ncast)
+    # ------------- decoding parameters: the aggregator id handed to the Prio3 decoders is caller-chosen and is
+    # range-checked at full width before it is narrowed (`u8::try_from(agg_id).unwrap()` relies on it)
+    rule = "R-C08.A"
+    try:
+        f = ctx.fn(rule, name="role_try_from", self_adt="vdaf::prio3::Prio3")
+        ctx.require_guard(rule, f, "Ge", Arg(2), Cast(Field(Arg(1), "num_aggregators")), desc="agg_id >= num_aggregators (compared in usize) -> Err")
+        n = 0
+        for fd in ctx.prog.find(name="decode_with_param", id_re=r"vdaf::prio3::Prio3(InputShare|VerifyState)"):
+            g = ctx.guards(fd)
+            if any(t.callee.name == "role_try_from" for bi, t in fd.body.calls()):
+                n += 1
+                ctx.require_try_call(rule, fd, Mentions(Call("role_try_from")), desc="role_try_from(agg_id)?", key="%s:%s:role-checked" % (rule, fd.id))
+        if n < 2:
+            ctx.bad(rule, rule + ":sites", "expected the Prio3 input-share and verify-state decoders to validate the aggregator id, found %d" % n, kind="anchor")
+    except Skip:
+        pass
+    ctx.floor(rule, 3)
